@@ -349,3 +349,21 @@ CASES["C15"] = [
     ("twin: guard spelled with two ifs", "twin", CONSTRUCT, "        if extract_cst_index(op.lb) != 0 or extract_cst_index(op.step) != 1:\n            return\n", "        if extract_cst_index(op.lb) != 0:\n            return\n        if not extract_cst_index(op.step) == 1:\n            return\n", []),
     ("twin: shortcut disjuncts swapped", "twin", DUPB, "if len(in_uses) == 0 or len(out_uses) == 0:", "if len(out_uses) == 0 or len(in_uses) == 0:", []),
 ]
+
+LAYOUTF = "snaxc/transforms/set_memory_layout.py"
+
+CASES["C09"] = [
+    ("pre-existing layout return deleted", "mutant", LAYOUTF, "            if isa(operand.type, MemRefType[Attribute]) and isinstance(operand.type.layout, TiledStridedLayoutAttr):\n                return\n", "            pass\n", ["C09.untouched"]),
+    ("extent multiplied by the schedule bound", "mutant", LAYOUTF, "current_stride = current_stride * layout_bound", "current_stride = current_stride * schedule_bound", ["C09.radix"]),
+    ("extent not advanced", "mutant", LAYOUTF, "                current_stride = current_stride * layout_bound\n", "", ["C09.radix"]),
+    ("granularity helper subtracts", "mutant", LAYOUTF, "current_stride += (temporal_access_granularity - current_stride) % 64", "current_stride -= (current_stride - temporal_access_granularity) % 64", ["C09.monotone"]),
+    ("granularity parentheses dropped", "mutant", LAYOUTF, "current_stride += (spatial_access_granularity - current_stride) % 64", "current_stride += spatial_access_granularity - current_stride % 64", ["C09.monotone"]),
+    ("fill with bound 2", "mutant", LAYOUTF, "stride.append(Stride(current_stride, 1))", "stride.append(Stride(current_stride, 2))", ["C09.radix"]),
+    ("tiling without divisibility", "mutant", LAYOUTF, "                    if size_remaining % schedule_bound != 0:\n                        to_tile = False\n", "                    if False:\n                        to_tile = False\n", ["C09.radix"]),
+    ("start extent 0", "mutant", LAYOUTF, "            current_stride = 1\n", "            current_stride = 0\n", ["C09.radix"]),
+    ("canonicalize merges without step test", "mutant", TSTRIDE, "                and prev_stride.step * prev_stride.bound == stride.step\n", "", ["C09.canon"]),
+    ("twin: extent update as augmented assignment", "twin", LAYOUTF, "current_stride = current_stride * layout_bound", "current_stride *= layout_bound", []),
+    ("twin: divisibility guard positive form", "twin", LAYOUTF,
+     "                    if size_remaining % schedule_bound != 0:\n                        to_tile = False\n",
+     "                    if not size_remaining % schedule_bound == 0:\n                        to_tile = False\n", []),
+]
